@@ -16,6 +16,12 @@ performed them (labels are observed, effects are predicted):
     send                         the send loop took one item off the send queue and dealt with it
     notify <rid>                 the one-shot timeout callback of request rid ran
     process <type> <tag>         _ProcessReply ran on a frame the peer sent
+    wbegin                       the send loop took one item off the queue, got as far as self._socket.write(payload)
+                                 and the call blocks (slow peer; the generator stalled the fake socket).  The bytes
+                                 have been handed over: the frame is listed under `frames written` of this step.
+    wend                         the blocked write call returns
+    quiet                        (not a step of the code) the harness found nothing runnable: every spawned callback
+                                 has run, the send loop waits in queue.get() or inside the blocked write
     ping                         harness calls _SendPingMessage (as the ping loop does)
     reopen                       at a quiescent point the sink is closed and a fresh transport sink is opened on a
                                  fresh connection (a closed sink object cannot be re-opened: its loops see the state
@@ -31,6 +37,8 @@ Script vocabulary (what the generator controls; the labels above are what the re
     [early kind mtype]    peer frame for the tag the next request is about to get, read before that
                           request is written (one yield in between), then the request
     [ping]  [reopen]      [D] run the loop until idle     [Y] one yield (callbacks already queued run)
+    [stall]               the next write call of the send loop blocks (after handing its bytes over)
+    [W]                   the blocked write call may return (the send-loop greenlet resumes at the next yield)
 """
 from struct import pack, unpack
 
@@ -56,7 +64,8 @@ THOROUGH = dict(gen=40000)
 REAL_MAX = (1 << 24) - 1
 JUNK = 99999999          # canonical form of a non-integer "tag" found in the pool or the tag map
 
-TRUSTED = ['fake socket harness/fakenet.py (atomic, non-yielding write; peer bytes fed by the generator)',
+TRUSTED = ['fake socket harness/fakenet.py (peer bytes fed by the generator; write is atomic and non-yielding unless the '
+           'generator stalls it: then the call hands its bytes over and blocks on a gevent Event until released)',
            'logging subclasses of gevent.queue.Queue (send-step boundaries), scales.observable.Observable '
            '(timeout callback boundaries) and of the transport sink (_ProcessReply boundary) substituted at run time']
 ASSUMPTIONS = ['both transport sinks built on MuxSocketTransportSink are driven: ThriftMux SocketTransportSink and '
@@ -67,7 +76,8 @@ ASSUMPTIONS = ['both transport sinks built on MuxSocketTransportSink are driven:
 RULE = ('scripts drawn from the seeded generator; distinct = distinct (cfg, op list) as executed (labels in real '
         'order); non-trivial = the run reaches at least one of: tag reuse, request dropped unsent, Tdiscarded after '
         'transmission, answer before transmission, peer frame on a reserved/unknown/already-answered tag, pool '
-        'exhaustion, re-open')
+        'exhaustion, re-open, a blocked write with a deadline expiring / an answer arriving / requests queueing '
+        'during it')
 
 MTYPES = [-2, -2, -2, -128, 127, -65, -66, 2, 66, 65, 0, 1, -1, 68, -68, 64, -64]
 
@@ -81,6 +91,7 @@ def gen_script(rng, tier):
     n = rng.choice([6, 12, 20, 30, 45] if tier != 'thorough' else [6, 12, 20, 30, 45, 80, 150])
     p_drain = rng.choice([0.1, 0.25, 0.5])
     adversarial = rng.random() < 0.6
+    slow = rng.random() < 0.4      # the peer is slow now and then: write calls of the send loop block
     ops = []
     nreq = 0
     evs = []        # rids having an unfired event
@@ -119,6 +130,8 @@ def gen_script(rng, tier):
         elif x < 0.93 and adversarial:
             ops.append(['reopen'])
             nreq, evs = 0, []
+        elif x < 0.96 and slow:
+            ops.append(['stall'] if rng.random() < 0.6 else ['W'])
         else:
             ops.append(['D'])
         if rng.random() < p_drain:
@@ -169,6 +182,56 @@ def gen_script_focus(rng, tier, focus):
                     ops.append(['fire', pending.pop(rng.randrange(len(pending)))])
                 if rng.random() < 0.35:
                     ops.append(rng.choice([['D'], ['Y']]))
+            ops.append(['D'])
+        elif rng.random() < 0.4:
+            # the deadline relative to a write that blocks: requests queue up behind the blocked frame, deadlines
+            # expire (of the frame being written, of queued ones), answers arrive, then the write returns
+            ops.append(['stall'])
+            k = rng.choice([1, 1, 2, 3])
+            batch = []
+            for _ in range(k):
+                kind = rng.choice(['ev', 'ev', 'ev', 'noev'])
+                ops.append(['req', kind])
+                if kind == 'ev':
+                    pending.append(nreq)
+                batch.append(nreq)
+                live.append(nreq)
+                nreq += 1
+                if rng.random() < 0.5:
+                    ops.append(rng.choice([['D'], ['Y']]))
+            ops.append(rng.choice([['D'], ['D'], ['Y']]))
+            during = []
+            for r in batch:
+                if r in pending and rng.random() < 0.7:
+                    during.append(['fire', r])
+                    pending.remove(r)
+                if rng.random() < 0.2:
+                    during.append(['ans', r, -2])
+            if rng.random() < 0.3:
+                during.append(['req', 'noev'])
+                live.append(nreq)
+                nreq += 1
+            if rng.random() < 0.2:
+                during.append(['stall'])
+            rng.shuffle(during)
+            for o in during:
+                ops.append(o)
+                if rng.random() < 0.5:
+                    ops.append(rng.choice([['D'], ['Y']]))
+            ops.append(['W'])
+            if rng.random() < 0.3:
+                for r in list(pending):
+                    if r in batch and rng.random() < 0.5:
+                        ops.append(['fire', r])       # before the send loop gets to run again
+                        pending.remove(r)
+            ops.append(['D'])
+            if rng.random() < 0.5:
+                ops.append(['W'])
+                ops.append(['D'])
+            for r in list(live):
+                if rng.random() < 0.4:
+                    ops.append(['ans', r, rng.choice([-2, -66, -128])])
+                    live.remove(r)
             ops.append(['D'])
         else:
             k = rng.choice([1, 2, 3, 4])
@@ -255,6 +318,35 @@ def exhaustive(tier, shard, shards):
 
     for y in rec([], 0, []):
         yield y
+    for ops in _midwrite_cases(tier):
+        for flavour in ('thriftmux', 'kafka'):
+            k[0] += 1
+            if k[0] % shards == shard:
+                yield {'max': None, 'flavour': flavour, 'ops': ops}
+
+
+def _midwrite_cases(tier):
+    """the write as a yield point: request 0 (with a deadline) blocks in its write; then every sequence of at most
+    N of {its deadline fires, the peer answers it, another request (with a deadline) is issued, that one's deadline
+    fires, run until idle, one yield, the write returns} in which the write returns exactly once; then drain"""
+    import itertools
+    n = 5 if tier == 'thorough' else 4
+    vocab = [['fire', 0], ['ans', 0, -2], ['req', 'ev'], ['fire', 1], ['D'], ['Y'], ['W']]
+    for first in (['D'], ['Y']):
+        for ln in range(1, n + 1):
+            for seq in itertools.product(range(len(vocab)), repeat=ln):
+                ops = [vocab[i] for i in seq]
+                if sum(1 for o in ops if o == ['W']) != 1:
+                    continue
+                if sum(1 for o in ops if o == ['fire', 0]) > 1 or sum(1 for o in ops if o == ['fire', 1]) > 1:
+                    continue
+                if sum(1 for o in ops if o == ['req', 'ev']) > 1 or sum(1 for o in ops if o[0] == 'ans') > 1:
+                    continue
+                if ['fire', 1] in ops and (['req', 'ev'] not in ops or ops.index(['fire', 1]) < ops.index(['req', 'ev'])):
+                    continue
+                if any(ops[i] == ops[i + 1] for i in range(len(ops) - 1) if ops[i] in (['D'], ['Y'])):
+                    continue
+                yield [['stall'], ['req', 'ev']] + [first] + [list(o) for o in ops] + [['D']]
 
 
 def shrink(script):
@@ -315,6 +407,7 @@ def _canon(t):
 def run_script(script):
     import rt
     import gevent
+    from gevent.event import Event
     import fakenet
     _install()
     from scales.thriftmux.sink import SocketTransportSink
@@ -357,8 +450,28 @@ def run_script(script):
         delivered = []
         wpos = 0
         sink = None
+        stall = 0            # number of upcoming write calls of the send loop that block
+        blocked = None       # the Event the blocked write call waits on
 
     rec = Rec()
+
+    class GateSocket(fakenet.FakeScalesSocket):
+        """write() hands the bytes to the peer; when the generator stalled the socket, the call then blocks
+        (the send-loop greenlet is parked inside self._socket.write) until the generator releases it"""
+
+        def write(self, buff):
+            fakenet.FakeScalesSocket.write(self, buff)
+            if not rec.active or rec.sink is None or rec.sink.__dict__.get('_socket') is not self or rec.stall <= 0:
+                return
+            rec.stall -= 1
+            ev = rec.blocked = Event()
+            rec.in_send = False
+            emit(['wbegin'])
+            try:
+                ev.wait()
+            finally:
+                rec.blocked = None
+            emit(['wend'])
 
     class LoggedObservable(Observable):
         def __init__(self, rid):
@@ -496,7 +609,7 @@ def run_script(script):
             rec.sink.Close()
             rt.drain()
         peer['auto_pong'] = True
-        sink = (LoggedKafkaSink if kafka else LoggedSink)(fakenet.FakeScalesSocket('h1', 9001), 'svc')
+        sink = (LoggedKafkaSink if kafka else LoggedSink)(GateSocket('h1', 9001), 'svc')
         rec.sink = sink
         sink.Open()
         rt.drain()
@@ -508,6 +621,8 @@ def run_script(script):
         rec.wpos = len(conn().written)
         rec.delivered = []
         rec.in_send = False
+        rec.stall = 0
+        rec.blocked = None
         rec.active = True
 
     try:
@@ -575,12 +690,27 @@ def run_script(script):
                 emit(['reopen'])
             elif kind == 'D':
                 rt.drain()
+                emit(['quiet'])
             elif kind == 'Y':
                 gevent.sleep(0)
+            elif kind == 'stall':
+                rec.stall += 1
+            elif kind == 'W':
+                if rec.blocked is not None:
+                    rec.blocked.set()
         rt.drain()
         if rec.in_send:
             rec.in_send = False
             emit(['send'])
+        emit(['quiet'])
+        # a slow peer is not a dead peer: every blocked write eventually returns
+        rec.stall = 0
+        for _ in range(1000):
+            if rec.blocked is None:
+                break
+            rec.blocked.set()
+            rt.drain()
+            emit(['quiet'])
     finally:
         rec.active = False
         HOOK[0] = None
@@ -609,9 +739,28 @@ def _tag_case(recs, tags):
     """coverage tags from the executed label sequence"""
     written = {}        # tag -> rid, request frames written and not answered since
     held = {}           # tag -> rid currently in the tag map (by our own bookkeeping of the observations)
+    blocked_frame = []  # the request frame whose write is blocked
+    in_write = [False]
+    timed_out_in_write = set()
     for op, obs in recs:
         res, assigned, frames, delivered, keys, free, nxt, qlen = obs
         k = op[0]
+        if in_write[0]:
+            if k == 'req':
+                tags.add('queued-behind-blocked-write')
+            if k == 'fire':
+                tags.add('timeout-during-some-write')
+                if blocked_frame and blocked_frame[0][2] == op[1]:
+                    tags.add('timeout-during-own-write')
+                    timed_out_in_write.add(blocked_frame[0][1])
+            if k == 'process' and blocked_frame and blocked_frame[0][1] == op[2]:
+                tags.add('answer-during-own-write')
+            if k == 'notify' and qlen:
+                tags.add('discard-queued-behind-blocked-write')
+        if k in ('send', 'wbegin'):
+            for f in frames:
+                if f[0] == 'discard' and f[2] in timed_out_in_write:
+                    tags.add('discard-after-timeout-during-write')
         if k == 'req':
             if res == 'exhausted':
                 tags.add('exhausted')
@@ -630,6 +779,19 @@ def _tag_case(recs, tags):
                 tags.add({'req': 'request-written', 'discard': 'discard-sent', 'ping': 'ping-sent'}.get(f[0], 'other-frame'))
                 if f[0] == 'req':
                     written[f[1]] = f[2]
+        elif k == 'wbegin':
+            tags.add('write-blocked')
+            blocked_frame[:] = [f for f in frames if f[0] == 'req'][:1]
+            in_write[0] = True
+            for f in frames:
+                tags.add({'req': 'request-written', 'discard': 'discard-sent', 'ping': 'ping-sent'}.get(f[0], 'other-frame'))
+                if f[0] == 'req':
+                    written[f[1]] = f[2]
+        elif k == 'wend':
+            in_write[0] = False
+            del blocked_frame[:]
+        elif k == 'quiet':
+            pass
         elif k == 'notify':
             tags.add('timeout-after-send')
             if not frames and qlen == 0:
@@ -656,4 +818,5 @@ def _tag_case(recs, tags):
 def nontrivial(case):
     t = set(case.get('tags', []))
     return bool(t & {'reuse', 'dropped-or-skipped-unsent', 'discard-sent', 'answer-before-transmission',
-                     'frame-on-reserved-tag', 'frame-on-unknown-or-answered-tag', 'exhausted', 'reopen'})
+                     'frame-on-reserved-tag', 'frame-on-unknown-or-answered-tag', 'exhausted', 'reopen',
+                     'timeout-during-some-write', 'answer-during-own-write', 'queued-behind-blocked-write'})
